@@ -38,6 +38,16 @@ def run(prog, chk):
         raise AnalysisBroken('2x2 applicator not found')
     app = app[0]
 
+    # a gate's matrix is a function of *this* call's angle: a function-local static initialised from a parameter (or from a local computed
+    # from one) keeps the first call's value — every later rz would rotate by the first angle, whatever the log says
+    from ..kernels import frozen_static_locals
+    nst = 0
+    for g_ in list(sim['gates']) + [app]:
+        for v_, dep in frozen_static_locals(g_):
+            nst += 1
+            chk.ob('R01.1', g_, v_.get('ln', g_.ln), False, '%s keeps `%s` in static storage although its initialiser reads %s: it is computed on the first call only, so every later '
+                   'call applies the first call\'s matrix' % (g_.short, v_['name'], dep), key='static-matrix:%s' % g_.short)
+    chk.extra['static_locals_initialised_from_arguments'] = nst
     # ---- R01.1 ---------------------------------------------------------------------------------
     t = sp.Symbol('t', real=True)
     refs = KS.references(t)
